@@ -656,3 +656,53 @@ Proof.
   exists (mkC2 2 (mkFC2 0 120 75 55 55) (mkU2 10 0 0 0 0 0) false KRefreshed).
   vm_compute. split; [right; left; reflexivity|split; [reflexivity|discriminate]].
 Qed.
+
+(** * account spending never panics on a reachable state (v2) *)
+Definition covered2 (fs : list frow) (cs : list crow2) : Prop :=
+  forall c r, find2 c cs = Some r -> fsum c fs <= vFund (cuse2 r).
+
+Lemma distribute2_total a fs : forall u cs,
+  covered2 fs cs -> refs2 fs cs -> exists fs' cs', distribute2 a u fs cs = Ok (fs', cs').
+Proof.
+  induction fs as [|f t IH]; intros u cs Cv Rf; cbn [distribute2]; [eauto|].
+  assert (Cv' : forall cs1, (forall c r1, find2 c cs1 = Some r1 -> exists r, find2 c cs = Some r /\
+                 (vFund (cuse2 r1) = vFund (cuse2 r) \/ (c = fcon f /\ vFund (cuse2 r) <= vFund (cuse2 r1) + famt f))) ->
+               covered2 t cs1).
+  { intros cs1 H c r1 F1. destruct (H _ _ F1) as (r & F & D). specialize (Cv _ _ F). cbn [fsum] in Cv.
+    destruct D as [D|[-> D]]; [destruct (fcon f =? c); lia|rewrite N.eqb_refl in Cv; lia]. }
+  destruct ((facct f =? a) && negb (famt f =? 0)) eqn:E.
+  - destruct (dist_row2 u (famt f)) as [[u' rem] add] eqn:D.
+    pose proof (dist_row2_spec _ _ _ _ _ D) as (D1 & D3 & D4).
+    destruct (find2 (fcon f) cs) as [x|] eqn:Fx; [|exfalso; apply (Rf f); [now left|exact Fx]].
+    pose proof (Cv _ _ Fx) as Cx. cbn [fsum] in Cx. rewrite N.eqb_refl in Cx.
+    unfold con_move2 at 1. rewrite Fx. unfold csub.
+    destruct (famt f - rem <=? vFund (cuse2 x)) eqn:L; [|lia]. cbn [bind].
+    match goal with |- context [distribute2 a u' t ?CS] => set (cs1 := CS) end.
+    assert (M : con_move2 cs (fcon f) (famt f - rem) add = Ok cs1).
+    { unfold con_move2. rewrite Fx. unfold csub. rewrite L. reflexivity. }
+    apply con_move2_spec in M; [|lia|auto|auto]. destruct M as [M1 M2].
+    destruct (IH u' cs1) as (t' & cs2 & R).
+    + apply Cv'. intros c r1 F1.
+      destruct (in_map_find2 c cs) as (r & F); [rewrite <- M1; rewrite <- (find2_cid _ _ _ F1); apply in_map; eapply find2_In; eauto|].
+      destruct (M2 _ _ F) as (r1' & F1' & _ & _ & _ & _ & G). rewrite F1 in F1'. inversion F1'; subst r1'.
+      exists r. split; [exact F|]. destruct (c =? fcon f) eqn:Ec; [right; split; lia|left; lia].
+    + intros g Hg. specialize (Rf g (or_intror Hg)).
+      destruct (find2 (fcon g) cs) as [y|] eqn:Fy; [|contradiction].
+      destruct (M2 _ _ Fy) as (y' & Fy' & _). congruence.
+    + rewrite R. cbn. eauto.
+  - destruct (IH u cs) as (t' & cs1 & R).
+    + apply Cv'. intros c r1 F1. exists r1; split; [exact F1|left; reflexivity].
+    + intros g Hg. apply Rf. now right.
+    + rewrite R. cbn. eauto.
+Qed.
+
+Lemma v2_debit_total l a u : is_panic (debit2 (runs2 init2 l) a u) = false.
+Proof.
+  destruct (runs2_inv l init2 Inv2_init) as (ND & RO & RF).
+  unfold debit2. destruct (alookup a (accts2 (runs2 init2 l))) as [bal|]; [|reflexivity].
+  destruct (bal <? rcost2 u); [reflexivity|].
+  destruct (distribute2_total a (funds2 (runs2 init2 l)) u (cons2 (runs2 init2 l))) as (fs & cs & R).
+  - intros c r F. destruct (RO r (find2_In _ _ _ F)) as [_ B]. rewrite (find2_cid _ _ _ F) in B. lia.
+  - exact RF.
+  - rewrite R. reflexivity.
+Qed.
